@@ -190,7 +190,7 @@ form('proto-call-world-path', { ops: ['concat'] }, F => `w.X${F.id()}.prototype.
 form('proto-call-computed-class-path', { ops: ['concat'], nodemand: true }, F => `w.o${F.id()}[w.k${F.id()}].prototype.concat.call(${F.loc()}, ${F.s()})`)
 form('proto-apply-computed-literal-class-path', { ops: ['trim'], nodemand: true }, F => `w.o${F.id()}['String'].prototype.trim.apply(${F.loc()}, [])`)
 form('proto-call-private-class-path', { ops: ['substring'], nodemand: true }, F => `new (class { #K = String; m(s) { return this.#K.prototype.substring.call(s, 1) } })().m(${F.s()})`)
-form('proto-call-callresult-class-path', { ops: ['concat'], nodemand: true }, F => `w.fobj${F.id()}().prototype.concat.call(${F.loc()}, ${F.s()})`)
+form('proto-call-callresult-class-path', { ops: ['concat'], nodemand: true }, F => `w.fobj${F.id()}().X1.prototype.concat.call(${F.loc()}, ${F.s()})`)
 form('proto-call-paren-class-path', { ops: ['concat'], nodemand: true }, F => `(w.X${F.id()}).prototype.concat.call(${F.loc()}, ${F.s()})`)
 // the method is missing on the prototype object: reading `.call` of undefined throws BEFORE the arguments are evaluated (D35)
 form('proto-call-missing-method', { ops: ['concat'], nodemand: true, kf: 'D35' }, F => `Number.prototype.concat.call(${F.loc()}, ${F.f()})`)
